@@ -110,6 +110,34 @@ def only_access_order(w1, w2):
     return some
 
 
+WILD_FINDING = "C03-access-wildcard-name"
+
+
+def wildcard_access_class(src, w1, w2):
+    """w1 and w2 are equal except for their access statements, and every name that is listed by only one of
+    them is a name the source never declares nor lists in an access statement, in a module with a wildcard `use`
+    (an unresolved symbol: whether pass 1 lists it depends on Python's set order in process_access_statements)"""
+    if not w2:
+        return False
+    a = [ln for ln in w1.split("\n") if not ACC.match(ln)]
+    b = [ln for ln in w2.split("\n") if not ACC.match(ln)]
+    if a != b:
+        return False
+
+    def names(w):
+        return {(m.group(1).lower(), n.strip().lower()) for ln in w.split("\n") for m in [ACC.match(ln)] if m
+                for n in m.group(2).split(",")}
+    diff = names(w1) ^ names(w2)
+    if not diff or not re.search(r"^\s*use\s+\w+\s*$", src, re.I | re.M):
+        return False
+    listed = {n for _p, n in names(src)}
+    for _p, n in diff:
+        if n in listed or re.search(r"::[^\n!]*\b" + re.escape(n) + r"\b\s*(\(|=|,|$)", src, re.I | re.M) and \
+                not re.search(r"\(\s*[^)]*\b" + re.escape(n) + r"\b[^(]*\)", src, re.I):
+            return False
+    return True
+
+
 def forward_reference(w1_src):
     """the first written text declares something before a declaration it reads (C04 defect):
     evaluated on the symbol tables the writer used"""
@@ -134,6 +162,8 @@ def classify_unstable(src, w1, w2, sorts):
         return "C03-generic-interface-type-name"
     if w2 and "dimension()" in w1:
         return "C03-lower-bound-only-dimension"
+    if wildcard_access_class(src, w1, w2):
+        return WILD_FINDING
     from psyclone.psyir.frontend.fortran import FortranReader
     try:
         psyir = FortranReader().psyir_from_source(src)
@@ -271,6 +301,8 @@ def check_generated(chk, n, sorts, known_ids):
             cl = "C03-access-order" if (only_access_order(w1, w2) and not sorts) else (
                 "C03-forward-reference" if any(b[2] for _u, _i, rows, _m in seen1
                                                for b in c04.monotone_breaks(rows)) else None)
+            if cl is None and wildcard_access_class(src, w1, w2):
+                cl = WILD_FINDING
             if not (cl and cl in known_ids):
                 chk.violation(dict(payload, observed="w2 differs from w1", diff_removed=rem[:20],
                                    diff_added=add[:20], expected="w1 == w2"))
@@ -309,13 +341,19 @@ def check_generated(chk, n, sorts, known_ids):
                 return [x for x in seq if x[1].startswith("cont")] + [x for x in seq if not x[1].startswith("cont")]
             model_seq, real_seq = cfirst(model_seq), cfirst(real_seq)
         agreed = (model_seq == real_seq)
+        if not agreed and model_seq is not None and "C03-forward-reference" in known_ids and (
+                any(b[2] for b in c04.monotone_breaks(rows)) or any(b[2] for b in c04.monotone_breaks(seen2[k][2]))):
+            # the written text has a forward reference (known finding C03-forward-reference, outside `cleanText`):
+            # the reader's placeholder keeps a different class tag; the ORDER of the names is still compared
+            agreed = [n for n, _t in model_seq] == [n for n, _t in real_seq]
+            dist["tie-names-only:forward-reference"] = dist.get("tie-names-only:forward-reference", 0) + 1
         chk.case({"kind": "reread", "unit": unit, "real": real_seq}, nontrivial=len(real_seq) >= 3, agreed=agreed)
         if not agreed:
             chk.correspondence_broken("symbol order after re-reading differs from Decls.readItems",
                                       {"src": payload["src"], "hist": payload["hist"], "w1": w1}, model_seq, real_seq)
     for j, vs in verdicts.items():
         payload, st, w1, w2, u1, seen2, cl = jobs[j]
-        if cl == "C03-access-order":
+        if cl in ("C03-access-order", WILD_FINDING):
             # pass 1 of the pinned code depends on Python's set order for wildcard-imported names
             continue
         mstable = all(v == "same" for v in vs)
@@ -603,7 +641,7 @@ def replay(payload):
         if explained_by_model(effs, st, w1, w2):
             print("this instability belongs to the known finding", SIGN_FINDING)
             return 0
-    cl = classify_unstable(src if "file" in payload else w1, w1, w2 or "", writer_sorts_access())
+    cl = classify_unstable(src if "file" in payload else payload.get("src", w1), w1, w2 or "", writer_sorts_access())
     if cl and cl in known:
         print("this instability belongs to the known finding", cl)
         return 0
